@@ -314,6 +314,29 @@ def _run_scalar(case, ctx):
             _check_result(ctx, spops.OPNAME[name], name, res, want, "scalar", sub, "scalar", a, c)
             if np.any(a != 0) and c != 0 and not np.all(want == want.flat[0]):
                 ctx.nontriv()
+            if c == 0 and not ldt and not ctype:
+                # depth 2 (see _run_unary): the same comparison / arithmetic with 0 after the object has grown
+                ctx.tick()
+                try:
+                    a2 = _grown(S, a)
+                    res2 = apply(S, _scalar(c, ctype))
+                except Exception as e:  # noqa: BLE001
+                    ctx.fail(spops.OPNAME[name], exc_symptom(e), short_tb(e), variant="scalar:after_growth", case=sub)
+                    continue
+                want2 = np.asarray(ref(a2, c), dtype=float)
+                if want2.shape != a2.shape:
+                    want2 = np.broadcast_to(want2, a2.shape).copy()
+                _check_result(ctx, spops.OPNAME[name], name, res2, want2, "scalar:after_growth", sub, "scalar", a2, c)
+
+
+def _grown(S, a):
+    """depth 2: the same object after an assignment beyond its extent (every mode one longer, the new corner = 5)."""
+    new = tuple(x for x in a.shape)
+    S[new] = 5.0
+    a2 = np.zeros(tuple(x + 1 for x in a.shape))
+    a2[tuple(slice(0, x) for x in a.shape)] = a
+    a2[new] = 5.0
+    return a2
 
 
 def _run_unary(case, ctx):
@@ -345,3 +368,14 @@ def _run_unary(case, ctx):
             ctx.fail(opname, "operand_mutated", "", case=sub)
         if np.any(a != 0) and np.any(want != 0):
             ctx.nontriv()
+        if not ldt:
+            # depth 2: the operation again on the same object after it has grown (nothing the first call derived from
+            # the old extent may be reused)
+            ctx.tick()
+            try:
+                a2 = _grown(S, a)
+                res2 = apply(S)
+            except Exception as e:  # noqa: BLE001
+                ctx.fail(opname, exc_symptom(e), short_tb(e), variant="after_growth", case=sub)
+                continue
+            _check_result(ctx, opname, name, res2, np.asarray(ref(a2), dtype=float), "after_growth", sub, "unary", a2, None)
